@@ -199,7 +199,9 @@ class NamedObject:
       # can be infinitely iterated and cause infinite loop. Special
       # casing Wire will be a mess around everywhere.
 
-      elif isinstance( obj, list ) and obj and isinstance( obj[0], (NamedObject, list) ):
+      # A slot may hold None (e.g. the diagonal of a crossbar grid), also the
+      # first one: look at all elements to tell a list of hardware objects
+      elif isinstance( obj, list ) and any( isinstance( x, (NamedObject, list) ) for x in obj ):
         fields = sd.NamedObject_fields
         if name in fields:
           if getattr( s, name ) is obj:
